@@ -2,6 +2,12 @@
 // records, after every operation, the complete projection of every live container.  It contains no expectations:
 // spec/Trace.tla is the oracle for every recorded step.
 #pragma once
+#ifdef VERIF_LAYOUT_ONLY
+// driver for the layout universe: construct, emplace_back, reserve and the projection only
+#define VERIF_NO_COPY
+#define VERIF_NO_ELEM
+#define VERIF_NO_MUTATE
+#endif
 #include "ledger.hpp"
 #include "values.hpp"
 
@@ -410,7 +416,13 @@ struct Driver
         const std::size_t n = size > MAXPROJ ? MAXPROJ : size;
         std::vector<std::string> distinct;
         std::string pn = "[";
-        for (int path = 0; path < 6; ++path)
+#ifdef VERIF_LAYOUT_ONLY
+        static constexpr int paths[] = {0, 3};
+#else
+        static constexpr int paths[] = {0, 1, 2, 3, 4, 5};
+#endif
+        bool firstpath = true;
+        for (int path : paths)
         {
             std::string pj = path_json(vec, path, vbase, n);
             std::size_t k = 0;
@@ -663,6 +675,7 @@ struct Driver
                     emplace(v, V(v), op.a[0], salt, vs, std::make_index_sequence<N>{});
                 }
             }
+#ifndef VERIF_NO_MUTATE
             else if (op.n == "PopBack")
             {
                 V(v).pop_back();
@@ -681,6 +694,7 @@ struct Driver
             {
                 V(v).clear();
             }
+#endif
             else if (op.n == "Reserve")
             {
                 const bool grows = static_cast<std::size_t>(op.a[0]) > V(v).capacity();
@@ -705,6 +719,7 @@ struct Driver
                 parcap = static_cast<long>(V(v).capacity());
             }
 #endif
+#ifndef VERIF_NO_MUTATE
             else if (op.n == "MoveConstruct")
             {
                 new (vstore[v]) Vec(std::move(V(op.a[0])));
@@ -731,6 +746,7 @@ struct Driver
                 std::swap(vstate[v], vstate[op.a[0]]);
                 std::swap(vfixed[v], vfixed[op.a[0]]);
             }
+#endif
 #ifndef VERIF_NO_ELEM
             else if (op.n == "ElemFromRef")
             {
